@@ -403,7 +403,8 @@ static int rdy_slot(const void *ctx)
 }
 
 extern void vsim_hs_skip(int node, int hs_type, int count);
-static void vsim_probe_reset(void) { memset(g_rdy, 0, sizeof g_rdy); g_probe_seq = 0; g_sign_node_reset(); g_ptm_reset(); vsim_hs_skip(-1, -1, 0); }
+extern void vsim_hs_insert(int node, int before_type, const unsigned char *msg, size_t len);
+static void vsim_probe_reset(void) { memset(g_rdy, 0, sizeof g_rdy); g_probe_seq = 0; g_sign_node_reset(); g_ptm_reset(); vsim_hs_skip(-1, -1, 0); vsim_hs_insert(-1, -1, 0, 0); }
 int32_t __real_psAesInitGCM(void *ctx, const unsigned char *key, uint8_t keylen);
 int32_t __wrap_psAesInitGCM(void *ctx, const unsigned char *key, uint8_t keylen)
 {
@@ -652,9 +653,23 @@ static int g_skip_node = -1, g_skip_type = -1, g_skip_type2 = -1, g_skip_count =
 void vsim_hs_skip(int node, int hs_type, int count) { g_skip_node = node; g_skip_type = hs_type; g_skip_count = count; g_skip_type2 = -1; g_skip_count2 = 0; if (node < 0) { g_skipped = 0; } }
 void vsim_hs_skip_also(int hs_type2, int count) { g_skip_type2 = hs_type2; g_skip_count2 = count; }   /* a second message type omitted by the same node */
 uint64_t vsim_hs_skipped(void) { return g_skipped; }
+/* byzantine peer, second use of the same hook: just before the node writes message `before_type` it ALSO accounts a foreign message in its own
+ * transcript (the harness puts the same bytes on the wire in front of that message), so that both Finished computations agree */
+static int g_ins_node = -1, g_ins_before = -1, g_ins_done = 0; static unsigned char g_ins_msg[8192]; static size_t g_ins_len;
+extern void vsim_byz_update_hash(const void *ssl, const unsigned char *msg, size_t len);
+void vsim_hs_insert(int node, int before_type, const unsigned char *msg, size_t len)
+{
+    g_ins_node = node; g_ins_before = before_type; g_ins_done = 0; g_ins_len = 0;
+    if (msg && len <= sizeof g_ins_msg) { memcpy(g_ins_msg, msg, len); g_ins_len = len; } else { g_ins_node = -1; }
+}
+int vsim_hs_inserted(void) { return g_ins_done; }
 int psVerifHsSkip(const void *ssl, int hsType)
 {
-    (void) ssl;
+    if (hsType & 0x1000) {
+        /* the flight encoder is about to hash and seal this message (messages are written first, hashed later): the added message goes in here */
+        if (g_ins_node >= 0 && g_ins_node == t_node && g_ins_before == (hsType & 0xfff) && !g_ins_done) { g_ins_done = 1; vsim_byz_update_hash(ssl, g_ins_msg, g_ins_len); }
+        return 0;
+    }
     if (g_skip_node == t_node && g_skip_type == hsType && g_skip_count > 0) { g_skip_count--; g_skipped++; return 1; }
     if (g_skip_node == t_node && g_skip_type2 == hsType && g_skip_count2 > 0) { g_skip_count2--; g_skipped++; return 1; }
     return 0;
